@@ -74,7 +74,7 @@ struct Owed {
     /// How the scripted server spells the frame: 0 = serde_json's compact output (members in
     /// alphabetical order); 1 = the other member order (`parameters` before `error` /
     /// `continues`, as Go's encoder writes it) with blanks after separators; 2 = every `/` in
-    /// the text escaped as `\/`; 3 = both.
+    /// the text escaped as `\/`; 3 = both; +4 = member names written with an escape (`"\u0065rror"`).
     wire: u8,
 }
 
@@ -85,8 +85,8 @@ impl Owed {
             // is ever escaped
             // (declared errors keep their text unescaped: their `why` is a zero-copy `&str`, which no
             // JSON decoder can fill from an escaped string)
-            let text = if self.wire >= 2 && (!self.error || self.service_error) { self.text.replace('/', "\\/") } else { self.text.clone() };
-            let (sp, reorder) = if self.wire % 2 == 1 { (" ", true) } else { ("", false) };
+            let text = if self.wire & 2 != 0 && (!self.error || self.service_error) { self.text.replace('/', "\\/") } else { self.text.clone() };
+            let (sp, reorder) = if self.wire & 1 == 1 { (" ", true) } else { ("", false) };
             let params = if self.service_error {
                 format!("{{\"parameter\":{sp}\"{text}\"}}")
             } else if self.error {
@@ -97,7 +97,7 @@ impl Owed {
             let head = if self.service_error {
                 Some("\"error\":\"org.varlink.service.InvalidParameter\"".to_string())
             } else if self.error && self.unit_error {
-                return b"{ \"error\" : \"org.example.Nope\" }".to_vec();
+                return if self.wire & 4 != 0 { b"{ \"\\u0065rror\" : \"org.example.Nope\" }".to_vec() } else { b"{ \"error\" : \"org.example.Nope\" }".to_vec() };
             } else if self.error {
                 Some("\"error\":\"org.example.Bad\"".to_string())
             } else {
@@ -108,6 +108,12 @@ impl Owed {
                 (Some(h), true) => format!("{{{p},{sp}{h}}}"),
                 (Some(h), false) => format!("{{{h},{p}}}"),
                 (None, _) => format!("{{{p}}}"),
+            };
+            // bit 4: member names written with an escape
+            let s = if self.wire & 4 != 0 {
+                s.replacen("\"error\"", "\"\\u0065rror\"", 1).replacen("\"continues\"", "\"continu\\u0065s\"", 1).replacen("\"parameters\"", "\"p\\u0061rameters\"", 1)
+            } else {
+                s
             };
             return s.into_bytes();
         }
@@ -258,7 +264,7 @@ fn gen_scenario(t: &mut Tape, borrowed: bool) -> Scenario {
     // of the four spellings.
     if t.draw(3) == 2 {
         for o in owed.iter_mut().chain(foreign.iter_mut()) {
-            o.wire = t.draw(4) as u8;
+            o.wire = t.draw(8) as u8;
         }
     }
     // One scenario in six: a reply is an org.varlink.service error. For C06 it answers the last
